@@ -1,1 +1,177 @@
-"""Harness generators (matrices etc.).  Each returns {file name: rust source}."""
+"""Harness generators.  Each generator returns {file name: rust source}; the oracle in the generated text is
+always a reference model written from the property statement (harness/*.rs preludes), never the code under test."""
+import os
+
+V = os.path.dirname(os.path.dirname(os.path.abspath(__file__)))
+
+
+def prelude(name):
+    return open(os.path.join(V, "harness", name)).read()
+
+
+def shape_expr(kind, a, b=None):
+    """Rust expression constructing an operand of a CONCRETE shape (R1) with symbolic payload from input IDs a (, b)."""
+    if kind == "null":
+        return "Value::Null"
+    if kind == "bool":
+        return "Value::Bool(in_bool::<%d>())" % a
+    if kind == "i64":
+        return "Value::Number(Number::from(in_i64::<%d>()))" % a
+    if kind == "u64":
+        return "Value::Number(Number::from(in_u64::<%d>()))" % a
+    if kind == "f64":
+        return "{ let f = in_f64::<%d>(); assume(f.is_finite()); Value::Number(Number::from_f64(f).unwrap()) }" % a
+    if kind == "num":
+        return "Value::Number(in_number::<%d, %d>())" % (a, b if b is not None else a + 50)
+    if kind == "obj":
+        return "Value::Object(serde_json::Map::new())"
+    if kind == "emptyarr":
+        return "Value::Array(Vec::new())"
+    if kind == "emptystr":
+        return "Value::String(String::new())"
+    if kind.startswith("c:"):
+        return "Value::Number(Number::from_f64(%s).unwrap())" % kind[2:]
+    raise ValueError(kind)
+
+
+SHAPE_DOC = {
+    "null": "null", "bool": "Bool(any)", "i64": "Number(any i64)", "u64": "Number(any u64)",
+    "f64": "Number(any finite f64 bit pattern)", "num": "Number(any repr, any payload)", "obj": "{}",
+    "emptyarr": "[]", "emptystr": '""',
+}
+
+
+def sdoc(k):
+    return SHAPE_DOC.get(k, "constant " + k[2:] if k.startswith("c:") else k)
+
+
+def ident(k):
+    return k.replace("c:", "k").replace(".", "p").replace("-", "m").replace("+", "")
+
+
+STUB_FMT = "#[cfg_attr(kani, kani::stub(std::fmt::format, stub_format))]\n"
+
+
+# ------------------------------------------------------------------------------------
+# C10: arithmetic operators (G3 harnesses of the decomposition)
+# ------------------------------------------------------------------------------------
+
+def c10_harness(op, opname, shapes, tier, timeout, conv, cuts=""):
+    n = len(shapes)
+    name = "c10_%s_%s" % (opname, "_".join(ident(s) for s in shapes) if shapes else "none")
+    lets = "".join("    let v%d = %s;\n" % (i, shape_expr(s, 10 * i + 1, 10 * i + 2)) for i, s in enumerate(shapes))
+    items = ", ".join("&v%d" % i for i in range(n))
+    forget = "".join("    std::mem::forget(v%d);\n" % i for i in range(n))
+    refconv = "ref_to_number" if conv == "number" else "ref_parse_float"
+    stubconv = ("crate::js_op::to_number, ref_to_number" if conv == "number"
+                else "crate::js_op::parse_float, ref_parse_float")
+    cs = ["%s(&v%d)" % (refconv, i) for i in range(n)]
+    if op in ("-", "/", "%") and n == 2:
+        exp = "match (%s, %s) { (Some(a), Some(b)) => Some(a %s b), _ => None }" % (cs[0], cs[1], op)
+    elif op == "-" and n == 1:
+        exp = "%s.map(|a| -1.0 * a)" % cs[0]
+    elif op in ("+", "*"):
+        init = "0.0" if op == "+" else "1.0"
+        exp = "{ let mut acc: Option<f64> = Some(%s);\n" % init
+        for c in cs:
+            exp += "        acc = match (acc, %s) { (Some(t), Some(x)) => Some(t %s x), _ => None };\n" % (c, op)
+        exp += "        acc }"
+    elif op in ("max", "min"):
+        cmpop = ">" if op == "max" else "<"
+        init = "f64::NEG_INFINITY" if op == "max" else "f64::INFINITY"
+        # reference: the greatest / least operand value (statement); identity only matters for n = 0, excluded by arity
+        exp = "{ let mut acc: Option<f64> = Some(%s);\n" % init
+        for c in cs:
+            exp += "        acc = match (acc, %s) { (Some(t), Some(x)) => Some(if x %s t { x } else { t }), _ => None };\n" % (c, cmpop)
+        exp += "        acc }"
+    else:
+        raise ValueError(op)
+    doc = ", ".join(sdoc(s) for s in shapes) or "no operands"
+    return name, '''
+//@ harness: %(name)s tier=%(tier)s timeout=%(timeout)d kind=main
+//@ encodes: OPERATOR_MAP["%(op)s"] closure and the js_op helper it calls (conversion callee replaced by its reference, G2; narrowing by a recorder, G1)
+//@ bound: operands (%(doc)s): result == to_number_value(exact IEEE fold), error iff an operand is non-numeric
+%(cuts)s#[cfg_attr(kani, kani::proof)]
+#[cfg_attr(kani, kani::unwind(6))]
+%(fmt)s#[cfg_attr(kani, kani::stub(%(stubconv)s))]
+#[cfg_attr(kani, kani::stub(crate::value::to_number_value, tnv_record))]
+#[cfg_attr(verif_replay, test)]
+pub fn %(name)s() {
+    tnv_setup();
+%(lets)s    let mut items: Vec<&Value> = Vec::with_capacity(4);
+%(pushes)s
+    let r = table_op("%(op)s", &items);
+    vshow!("{:?} {:?} = {:?}", "%(op)s", items, r);
+    let exp: Option<f64> = %(exp)s;
+    arith_check(&r, exp);
+    std::mem::forget(r);
+%(forget)s}
+''' % dict(name=name, tier=tier, timeout=timeout, op=op, doc=doc, fmt=STUB_FMT, stubconv=stubconv,
+           lets=lets, pushes="".join("    items.push(&v%d);\n" % i for i in range(n)), exp=exp, forget=forget,
+           cuts=("//@ cuts: %s\n" % cuts) if cuts else "")
+
+
+def gen_c10(tier):
+    out = prelude("c10_op.rs")
+    Q, T = "quick", "thorough"
+    plan = [
+        # (op, name, shapes, tier, timeout, conversion)
+        ("-", "sub", ["f64", "f64"], Q, 400, "number"),
+        ("-", "sub", ["i64", "u64"], Q, 400, "number"),
+        ("-", "sub", ["null", "f64"], Q, 300, "number"),
+        ("-", "sub", ["f64", "bool"], Q, 300, "number"),
+        ("-", "sub", ["obj", "f64"], Q, 300, "number"),
+        ("-", "sub", ["u64", "obj"], Q, 300, "number"),
+        ("-", "sub", ["u64", "f64"], T, 400, "number"),
+        ("-", "sub", ["f64", "i64"], T, 400, "number"),
+        ("-", "sub", ["bool", "null"], T, 300, "number"),
+        ("-", "sub", ["emptyarr", "emptystr"], T, 300, "number"),
+        ("-", "neg", ["f64"], Q, 300, "number"),
+        ("-", "neg", ["i64"], Q, 300, "number"),
+        ("-", "neg", ["u64"], Q, 300, "number"),
+        ("-", "neg", ["bool"], Q, 300, "number"),
+        ("-", "neg", ["null"], Q, 300, "number"),
+        ("-", "neg", ["obj"], Q, 300, "number"),
+        ("/", "div", ["f64", "c:3.0"], Q, 400, "number"),
+        ("/", "div", ["f64", "c:0.0"], Q, 300, "number"),
+        ("/", "div", ["null", "f64"], Q, 300, "number"),
+        ("/", "div", ["i64", "c:0.1"], T, 900, "number"),
+        ("/", "div", ["c:-7.5", "u64"], T, 900, "number"),
+        ("/", "div", ["bool", "bool"], Q, 300, "number"),
+        ("/", "div", ["f64", "obj"], Q, 300, "number"),
+        ("%", "mod", ["f64", "c:3.0"], Q, 900, "number"),
+        ("%", "mod", ["c:7.5", "i64"], T, 900, "number"),
+        ("%", "mod", ["null", "f64"], Q, 300, "number"),
+        ("%", "mod", ["f64", "c:0.0"], Q, 300, "number"),
+        ("%", "mod", ["obj", "f64"], Q, 300, "number"),
+        ("+", "add", [], Q, 300, "float"),
+        ("+", "add", ["f64"], Q, 300, "float"),
+        ("+", "add", ["f64", "f64"], Q, 400, "float"),
+        ("+", "add", ["i64", "u64"], Q, 400, "float"),
+        ("+", "add", ["f64", "null"], Q, 300, "float"),
+        ("+", "add", ["bool", "f64"], Q, 300, "float"),
+        ("+", "add", ["i64", "f64", "u64"], T, 1200, "float"),
+        ("+", "add", ["f64", "f64", "obj"], T, 600, "float"),
+        ("*", "mul", ["f64"], Q, 300, "float"),
+        ("*", "mul", ["f64", "c:3.0"], Q, 600, "float"),
+        ("*", "mul", ["c:-7.5", "f64"], Q, 600, "float"),
+        ("*", "mul", ["i64", "c:0.1"], T, 900, "float"),
+        ("*", "mul", ["u64", "null"], Q, 300, "float"),
+        ("*", "mul", ["f64", "c:2.0", "c:0.5"], T, 900, "float"),
+        ("max", "max", ["f64"], Q, 300, "number"),
+        ("max", "max", ["f64", "f64"], Q, 400, "number"),
+        ("max", "max", ["i64", "u64", "f64"], Q, 600, "number"),
+        ("max", "max", ["null", "f64", "bool"], T, 600, "number"),
+        ("max", "max", ["f64", "obj"], Q, 300, "number"),
+        ("min", "min", ["f64"], Q, 300, "number"),
+        ("min", "min", ["f64", "f64"], Q, 400, "number"),
+        ("min", "min", ["u64", "f64", "i64"], Q, 600, "number"),
+        ("min", "min", ["bool", "null", "f64"], T, 600, "number"),
+        ("min", "min", ["obj", "i64"], Q, 300, "number"),
+    ]
+    for (op, nm, shapes, t, to, conv) in plan:
+        # error paths of the iterator folds drop a merged Result<f64, Error{Value}>: deallocation is not modelled there
+        cuts = ""
+        _, src = c10_harness(op, nm, shapes, t, to, conv, cuts)
+        out += src
+    return {"c10_op.rs": out}
